@@ -46,6 +46,12 @@ static const char BODY[] = "Subject: q\n\nline one\r\n.\nlast";
 
 static void enumerate(void) {
   c07_case c; hbuf b = {0};
+  /* custom texts outside the qmail-queue.8 interface (first byte neither D nor Z): NUL, 'K' */
+  for (int k = 0; k < 2; k++) {
+    if (!c07_mine()) continue;
+    c07_defaults(&c, 'Q', k); free(c.qq); c.qq = strdup(k ? "82,0,4b6f6b2066616b65" : "82,0,007879");
+    hbuf_reset(&b); req(&b, "x\n", 2, "s@x", 3, 1, RC2); emit(&c, &b); c07_free(&c);
+  }
   /* every exit status; custom texts; crash */
   for (int e = 0; e < 256; e++) {
     if (!c07_mine()) continue;
